@@ -216,7 +216,8 @@ impl Ctx {
         }
     }
     pub fn nontrivial(&mut self, fingerprint: u64) {
-        if !self.frozen {
+        // counted conservatively: the per-shard set stops growing at 3M entries
+        if !self.frozen && self.distinct.len() < 3_000_000 {
             self.distinct.insert(fingerprint);
         }
     }
